@@ -31,13 +31,13 @@ type Config struct {
 	Name      string   `json:"name"`
 	Ctxs      []Script `json:"ctxs"`
 	NVars     int      `json:"nvars"`
-	TimeoutMs []int    `json:"timeout_ms"`        // lock timeout per shared variable
-	Invariant bool     `json:"invariant"`         // every writer preserves x+y: every committed snapshot must see the initial sum
-	Bound     int      `json:"bound"`             // preemption bound; -1 = unbounded
-	Timeouts  int      `json:"timeouts"`          // how many times "the timer fires first" may be chosen while another move is enabled
+	TimeoutMs []int    `json:"timeout_ms"`         // lock timeout per shared variable
+	Invariant bool     `json:"invariant"`          // every writer preserves x+y: every committed snapshot must see the initial sum
+	Bound     int      `json:"bound"`              // preemption bound; -1 = unbounded
+	Timeouts  int      `json:"timeouts"`           // how many times "the timer fires first" may be chosen while another move is enabled
 	TryLock   bool     `json:"try_lock,omitempty"` // some lock timeout is <= 0: acquisition is a try-lock whose outcome on a free lock is a random select between the lock and an already expired timer; executions are not reproducible
-	Persist   bool     `json:"persist,omitempty"` // every sharer is wrapped in resources.MakePersistent over an in-memory badger store
-	MaxAborts int      `json:"max_aborts"`        // once this many attempts have aborted (chosen or forced timeouts) no further alternatives are explored: the rest of the execution follows the default (non-preemptive) schedule
+	Persist   bool     `json:"persist,omitempty"`  // every sharer is wrapped in resources.MakePersistent over an in-memory badger store
+	MaxAborts int      `json:"max_aborts"`         // once this many attempts have aborted (chosen or forced timeouts) no further alternatives are explored: the rest of the execution follows the default (non-preemptive) schedule
 }
 
 var varNames = []string{"x", "y", "t"}
